@@ -263,18 +263,21 @@ theorem heap_handle_detached (h h' : Heap) (op : HOp) (ret : Option Addr) (root 
     (he : hstep h op = .ok (h', ret)) (hrl : root < h.size) (hap : Apart h root op.target) (f : Nat) :
     absH f h' root = absH f h root := hstep_abs_frame hi hok he hrl hap f
 
-/-- … and overwriting / removing a member DETACHES the node that was stored there: after
-    `c.Remove(name)` or `c.AddValue(name, v)` (`AddContainer` / `AddList`: `v` = the new cell) the old
-    member `x` shares no container / list with the graph below `c` any more — so by
-    `heap_handle_detached` later writes through the old handle `x` (or through any handle below it) are
-    invisible from `c`.  Proved for member names without index groups (the full statement also
-    covers `l[i]` slots and the path-level calls). -/
-theorem heap_overwrite_detaches_partial (h h' : Heap) (rank : Addr → Nat) (c x : Addr) (name : String)
-    (hr : h.RankedBy rank) (hm : h.MapsOk) (hs : SibSep h c) (hplain : hasIdxSuffix name = false)
-    (hx : childH h c name = some x) :
-    (Ytk.Heap.remove h c name = some h' → Apart h' c x) ∧
-    (∀ v, Apart h v x → ¬ Reach h v c → addH h c name v = some h' → Apart h' c x) :=
-  ⟨remove_detaches hr hm hs hplain hx, fun _ hvx hvc he => addH_detaches hr hm hs hplain hx hvx hvc he⟩
+/-- … and overwriting / removing a position DETACHES the node that was stored there, at any depth
+    of a tree-shaped document: when the walk of the path ends in the existing container `x`, after
+    `root.RemoveAt(path)` or `root.AddValueAt(path, v)` (for a one-component path: `Remove` / `AddValue`;
+    `AddContainer` / `AddList`: `v` = the new cell) the node `y` that `Lookup(path)` returned before
+    shares no container / list with the graph below `root` any more — so by `heap_handle_detached`
+    later writes through the old handle `y`, or through any handle below it, are invisible from `root`.
+    Proved for paths whose LAST component is a plain member name (the full statement also covers a
+    last component `l[i]`, i.e. handles sitting in list slots). -/
+theorem heap_overwrite_detaches_partial (h h' : Heap) (rank : Addr → Nat) (root x y : Addr) (segs : List String)
+    (last : String) (hr : h.RankedBy rank) (hm : h.MapsOk) (hs : SibSep h root)
+    (ha : ancestorH h root segs = some x) (hl : segs.getLast? = some last) (hplain : hasIdxSuffix last = false)
+    (hy : lookupSegsH h root segs = some y) :
+    (removeAtSegsH h root segs = some h' → Apart h' root y) ∧
+    (∀ v, Apart h v y → ¬ Reach h v x → addAtSegsH h root segs v = some h' → Apart h' root y) :=
+  pathwrite_detaches hr hm hs ha hl hplain hy
 
 /-- INVARIANT of one call: closed, acyclic, sorted maps, nil leaf — provided the call is made on an
     existing cell and the node it attaches (if any) exists and reaches no container / list of the graph
